@@ -36,14 +36,24 @@ let parse_case line =
     let bytes = Array.of_list (bytes_of_hex hex) in
     let n = Array.length bytes in
     let cuts = if cuts = "-" then [] else
-        List.map (fun c -> match String.split_on_char '+' c with
-            | [p] -> (int_of_string p, 0) | [p; g] -> (int_of_string p, int_of_string g) | _ -> failwith "cut")
+        List.map (fun c ->
+            (* "<cut>~<w>~<w>": waits of the application after the chunk; <w> = msec or T<sec>:<usec> *)
+            match String.split_on_char '~' c with
+            | p :: (_ :: _ as ws) ->
+              let w_of w = if w <> "" && w.[0] = 'T' then
+                  (match String.split_on_char ':' (tl w 1) with
+                   | [sec; usec] -> int_of_z (wait_tv_msec false (zi (int_of_string sec)) (zi (int_of_string usec)))
+                   | _ -> failwith "wait") else int_of_string w in
+              (int_of_string p, 0, Some (List.map w_of ws))
+            | _ ->
+            match String.split_on_char '+' c with
+            | [p] -> (int_of_string p, 0, None) | [p; g] -> (int_of_string p, int_of_string g, None) | _ -> failwith "cut")
           (String.split_on_char ',' cuts) in
     (* (chunk, gap after it); the rest of the stream is pushed last, with no gap *)
     let rec chunks pos = function
-      | [] -> [(Array.to_list (Array.sub bytes pos (n - pos)), 0)]
-      | (c, g) :: r -> if c < pos || c > n then chunks pos r else (Array.to_list (Array.sub bytes pos (c - pos)), g) :: chunks c r in
-    let chunks = List.map (fun (c, g) -> (List.map zi c, g)) (chunks 0 cuts) in
+      | [] -> [(Array.to_list (Array.sub bytes pos (n - pos)), 0, None)]
+      | (c, g, w) :: r -> if c < pos || c > n then chunks pos r else (Array.to_list (Array.sub bytes pos (c - pos)), g, w) :: chunks c r in
+    let chunks = List.map (fun (c, g, w) -> (List.map zi c, g, w)) (chunks 0 cuts) in
     let dict = Hashtbl.create 64 in
     let maxlen = ref 0 in
     let pos = ref 0 in
@@ -85,11 +95,12 @@ let pinned = (try Sys.getenv "VERIF_C20_PINNED" = "1" with Not_found -> false)
 let wait = zi 50000
 let stale = (try Sys.getenv "VERIF_C20_STALE" = "1" with Not_found -> false)
 let early = (try Sys.getenv "VERIF_C20_EARLY" = "1" with Not_found -> false)
+let waitforce = (try Sys.getenv "VERIF_C20_WAITFORCE" = "1" with Not_found -> false)
 let model line =
   let (chunks, tok, _, _, ht) = parse_case line in
   (* one push per chunk, then its gap, then the poll of the time-out (as the harness does) *)
   let res =
-    List.fold_left (fun acc (c, g) -> match acc with
+    List.fold_left (fun acc (c, g, ws) -> match acc with
         | None -> None
         | Some (out, now, ts) ->
           let pushed =
@@ -100,6 +111,17 @@ let model line =
             else tpush tok cap wait stale early (zi ht) (zi now) ts c in
           (match pushed with
            | None -> None
+           | Some ((e, ts'), now1) when ws <> None ->
+             (* the application waits; the waits time out (VERIF_C20_WAITFORCE=1: the pinned wait path) *)
+             let out = out @ List.map pr_event e in
+             let (out, now', ts'') = List.fold_left (fun (out, now, ts) m ->
+                 match twait waitforce (zi m) (zi now) ts with
+                 | None -> (out @ ["FORCED"], now, ts)
+                 | Some (ts1, now1) ->
+                   let now1 = int_of_z now1 in
+                   (out @ [Printf.sprintf "w%d" (now1 - now); Printf.sprintf "a%d" (int_of_z (wait_left (zi now1) ts1))], now1, ts1))
+                 (out, int_of_z now1, ts') (match ws with Some l -> l | None -> []) in
+             Some (out, now', ts'')
            | Some ((e, ts'), now1) ->
              let now' = int_of_z now1 + g in
              (match tpoll (zi now') ts' with
@@ -117,6 +139,7 @@ let parse_obs o =
       | 'k', [ty; md; s] -> evs := EvKey (zi (int_of_string ty), zi (int_of_string md), List.map zi (bytes_of_hex s)) :: !evs
       | 'm', [ty; b; l; c; md] -> evs := EvMouse (zi (int_of_string ty), zi (int_of_string b), zi (int_of_string l), zi (int_of_string c), zi (int_of_string md)) :: !evs
       | 'a', [v] -> armed := int_of_string v >= 0
+      | 'w', [_] -> ()
       | 'h', [v] -> held := int_of_string v
       | _ -> failwith "obs") (split_ws o);
   (List.rev !evs, !held, !armed)
@@ -132,6 +155,12 @@ let oracle line =
     (match (try Some (parse_obs o) with _ -> None) with
      | None -> "BAD unreadable observation"
      | Some (evs, held, armed) ->
+       (* the waits: each must have taken what InputDefs.twait says (the caller's time-out, or what was left to the
+          sequence's deadline); not judged when the deadline is reached (FORCED: outside the property) *)
+       let ws l = List.filter (fun t -> t.[0] = 'w') (split_ws l) in
+       let m = model c in
+       let forced = List.mem "FORCED" (split_ws m) in
+       if (not forced) && ws m <> ws o then "BAD a wait did not take the time it was given: expected " ^ String.concat " " (ws m) else
        if input_checkb keys leftover evs (zi held) armed then "OK"
        else "BAD events differ from those of the whole stream's keys")
   | None -> "BAD"
